@@ -26,5 +26,11 @@ StreamCases == { [cls |-> "stream", in |-> [kind |-> "stream", writes |-> w, chu
 
 Hello == {"right", "wrong_secret", "wrong_random", "flipped_digest", "zero_digest", "digest_of_other_packet", "no_ccs", "extra_handshake_records"}
 HelloCases == { [cls |-> "hello", in |-> [kind |-> "hello", how |-> h], expect |-> [ok |-> (h \in {"right", "extra_handshake_records"})]] : h \in Hello }
-ASSUME Dump == \A c \in StreamCases \cup HelloCases : PrintT(ToJson(c))
+\* one endpoint used in both directions at once (the transport reads in one goroutine and writes in another): the
+\* inbound record arrives in two pieces, split after `split` bytes (0..4 inside the 5-byte header, more inside the
+\* payload); while the reader waits for the second piece the endpoint writes `wsize` bytes.  Both directions are intact.
+DuplexCases == { [cls |-> "duplex", in |-> [kind |-> "duplex", split |-> k, wsize |-> w, rsize |-> r, first |-> f],
+                  expect |-> [read_equal |-> TRUE, write_declared_ok |-> TRUE, write_equal |-> TRUE]]
+                 : k \in {0, 1, 3, 4, 5, 9}, w \in {1, 300, 65536}, r \in {10, 70000}, f \in BOOLEAN }
+ASSUME Dump == \A c \in StreamCases \cup HelloCases \cup DuplexCases : PrintT(ToJson(c))
 =============================================================================
